@@ -160,7 +160,8 @@ AdmVer(pre, v, f, ctx) ==
   ELSE IF IsOpStat(f) THEN v = <<Field(f, 73, 75)>>
   ELSE v = pre.ver
 AdmCa(pre, v, f, ctx) ==
-  IF Free(f) THEN TRUE
+  IF DFof(f) = 18 THEN v = pre.ca      \* bits 6-8 of DF18 are the CF field (kind of equipment), not a transponder capability
+  ELSE IF Free(f) THEN TRUE
   ELSE IF DFof(f) = 11 THEN v = CAof(f)
   ELSE IF DFof(f) = 17 THEN v = pre.ca \/ v = CAof(f)     \* two-sided: recorded where the path records it
   ELSE v = pre.ca
